@@ -15,5 +15,6 @@ Theorem scaled_scale_invariant_needs_hyp_refuted :
           (pre_values (mkfcase m mo hw cols)).
 Proof.
   exists PAbs, Mean, 1%nat, false, Uniform, None, [mkcol [1] [0] [] [1; 1]], 2.
-  split; [reflexivity|]. intro H. inversion H as [|x y l l' E _]; subst. vm_compute in E. discriminate E.
+  split; [reflexivity|]. intro H. vm_compute in H. inversion H; subst.
+  match goal with E : Qeq _ _ |- _ => vm_compute in E; discriminate E end.
 Qed.
